@@ -6,7 +6,7 @@ from hypothesis import strategies as st
 
 from ..core import Clause, call, require
 from ..oracles import banks_ref as R
-from ..strategies import tame_threshold_case, threshold_configs, with_config, bank_specs, floats
+from ..strategies import fragile_widths, round_linear_tri_specs, tame_threshold_case, threshold_configs, with_config, bank_specs, floats
 from .c05 import _thr, apply_warmup, bank_labels, build_or_discard, narrowed_specs, warmups
 
 PROPERTY = "C06"
@@ -163,11 +163,13 @@ def _cases():
     widths = st.one_of(
         st.none(), st.none(),
         st.integers(2, 8), st.integers(2, 64), st.integers(2, 4096),
+        # arbitrary mid-range widths (a grid built with a float step has one point too many for some 5 % of them)
+        st.integers(40, 1000), fragile_widths(4097),
         st.sampled_from([2, 4, 8, 16, 64, 256, 512, 1024, 2048, 4096]),
         st.sampled_from([3, 5, 7, 9, 15, 17, 63, 65, 255, 257, 1023, 1025, 4095]),
     )
     banks = st.one_of(bank_specs(max_filts=12), bank_specs(max_filts=12), bank_specs(max_filts=40),
-                      narrowed_specs(["tri", "fbank", "gabor", "gammatone"]))
+                      narrowed_specs(["tri", "fbank", "gabor", "gammatone"]), round_linear_tri_specs())
     return st.fixed_dictionaries({
         "bank": banks, "filt": st.integers(0, 39), "width": widths,
         "bins": st.one_of(floats(0.25, 2.0), floats(0.25, 12.0)),
